@@ -8,6 +8,13 @@ ROOT = os.path.dirname(os.path.dirname(os.path.abspath(__file__)))
 WORK = os.path.join(ROOT, '.work')
 REPLAY = os.path.join(ROOT, 'replay')
 EVID = os.path.join(ROOT, 'evidence')
+if os.environ.get('VERIF_REPO'):
+    # evaluation of a seeded defect in a scratch worktree: keep its work
+    # files, evidence and replays away from those of /repo itself
+    _tag = os.path.basename(os.environ['VERIF_REPO'].rstrip('/'))
+    WORK = os.path.join(ROOT, '.work', 'eval', _tag)
+    REPLAY = os.path.join(WORK, 'replay')
+    EVID = os.path.join(WORK, 'evidence')
 
 
 def seed():
